@@ -18,7 +18,7 @@ def check_type(imports, name):
     p = subprocess.run(['coqc', '-Q', 'theories', 'Sismic', '-Q', 'proofs', 'SismicProofs', fn], cwd=COQ,
                        capture_output=True, text=True)
     out = p.stdout
-    m = re.search(r'^%s\s*\n?\s*:\s(.*)' % re.escape(name.split('.')[-1]), out, re.S | re.M)
+    m = re.search(r'^(?:%s|%s)\s*\n?\s*:\s(.*)' % (re.escape(name), re.escape(name.split('.')[-1])), out, re.S | re.M)
     if not m:
         raise SystemExit('cannot get the type of %s:\n%s\n%s' % (name, out[-2000:], p.stderr[-2000:]))
     return m.group(1).rstrip()
